@@ -19,8 +19,12 @@ RULE = ('programs: close() || send_text; close() || close(); close() || send_pin
         'frames only, at most one Close frame, no text/binary/continuation frame after it; every racing call either '
         'returned normally and its frame is on the wire before the Close, or raised a WebSocketError subclass and its '
         'frame is absent; no other exception type; no deadlock. A class is a distinct schedule signature per program.')
-ASSUMPTIONS = c11.ASSUMPTIONS
-TECHNIQUE = c11.TECHNIQUE
+ASSUMPTIONS = [
+    'CPython fires line events only at statement starts: a switch inside one statement is not explored',
+    'SchedLock is equivalent to threading.Lock/RLock for mutual exclusion; harness and stdlib code run atomically',
+    'systematic (DFS) part interleaves only lines of session.py, websocket.py, compression.py, frame.py, mask.py',
+]
+TECHNIQUE = 'runtime monitoring under a controlled thread scheduler (systematic preemption-bounded + random schedules), offline wire-history checker'
 
 
 def programs():
